@@ -8,7 +8,7 @@ def unique_vs_full(inp):
     corr = oqupy.PowerLawSD(alpha=0.15, zeta=1.0, cutoff=3.0, cutoff_type='exponential', temperature=0.3)
     par = oqupy.TempoParameters(dt=0.15, dkmax=3, epsrel=1e-8, add_correlation_time=0.2)
     rng = np.random.default_rng(8)
-    for spectrum in ([0.5, -0.5], [1.0, 0.0, -1.0], [1.0, 1.0, -0.5], [0.3, 0.3, 0.3], [1.0, 0.0, 0.0, -1.0]):
+    for spectrum in ([0.5, -0.5], [1.0, 0.0, -1.0], [1.0, 1.0, -0.5], [0.3, 0.3, 0.3], [1.0, 0.0, 0.0, -1.0], [0.0, 1.0, 3.0], [0.0, 0.5, 0.5, 2.0]):
         d = len(spectrum)
         O = np.diag(spectrum)
         h = rng.normal(size=(d, d)) + 1j * rng.normal(size=(d, d))
